@@ -755,6 +755,19 @@ def gen_deerr_extra(rng, tier):
     add("enum3", "e = { T = { 0 = 1, 1 = 2, 2 = 3 } }\n", "e/T", "e.T", "variant", keys_alt="e")
     add("enum3", "e = { T = 1 }\n", "e/T", "e.T", "variant", keys_alt="e")
     add("enum3", "e = { Q = 1 }\n", "e/Q/@", "e", "variant-key")
+    # round 5: a newtype variant whose payload is a table (header / inline / dotted form) with the wrong value NESTED inside
+    # it, also with the enum inside a sequence: the error must keep the span of the offending leaf, not the payload's
+    # (TableEnumDeserializer::newtype_variant_seed falls back to the payload's span only for an error that has none)
+    add("enum4", "[e.P]\nhost = 31337\nport = 1\n", "e/P/host", "e.P.host", "variant-payload", keys_alt="e.host")
+    add("enum4", "e = { P = { host = 'h', port = 'x' } }\n", "e/P/port", "e.P.port", "variant-payload", keys_alt="e.port")
+    add("enum4", "e.P.host = 'h'\ne.P.port = 1\ne.P.sub.x = 'bad'\n", "e/P/sub/x", "e.P.sub.x", "variant-payload", keys_alt="e.sub.x")
+    add("enum4", "# %s\n[e.P]\nhost = 'h'\nport = 1\n[e.P.sub]\nx = true # c\n" % mb, "e/P/sub/x", "e.P.sub.x", "variant-payload", keys_alt="e.sub.x")
+    add("enum4", "[e.P]\nhost = 'h'\n", "e/P", "e.P", "variant-payload", keys_alt="e")
+    add("enum4", "[[e.L]]\nx = 1\n[[e.L]]\nx = 'y'\n", "e/L/#1/x", "e.L.x", "variant-payload", keys_alt="e.x")
+    add("enum4", "e = { L = [ { x = 1 }, { x = true } ] }\n", "e/L/#1/x", "e.L.x", "variant-payload", keys_alt="e.x")
+    add("venum4", "v = [ { U = {} }, { P = { host = 1, port = 1 } } ]\n", "v/#1/P/host", "v.P.host", "variant-payload", keys_alt="v.host")
+    add("venum4", "[[v]]\n[v.P]\nhost = 'h'\nport = 1\nsub = { x = '%s' }\n" % mb, "v/#0/P/sub/x", "v.P.sub.x", "variant-payload", keys_alt="v.sub.x")
+    add("venum4", "[[v]]\nP.host = 'h'\nP.port = true\n", "v/#0/P/port", "v.P.port", "variant-payload", keys_alt="v.port")
     add("enum3", "e = { }\n", "e", "e", "enum-shape")
     add("enum3", "e = { N = 1, T = 2 }\n", "e", "e", "enum-shape")
     add("enum3", "e = 1\n", "e", "e", "enum-shape")
